@@ -9,7 +9,12 @@ check = "./check %s (quick tier, seed 1) exits 1 with VIOLATION and a concrete r
 if "--check" in sys.argv:
     check = sys.argv[sys.argv.index("--check") + 1]
 src = "/tmp/mut-%s-out/%s" % (pid, k)
-dst = os.path.join(ROOT, "seeded", "%s-%s" % (pid, k))
+sid = "%s-%s" % (pid, k)
+if "--src" in sys.argv:  # e.g. round 2: --src /tmp/mut2-C01-out/1 --id C01-4
+    src = sys.argv[sys.argv.index("--src") + 1]
+if "--id" in sys.argv:
+    sid = sys.argv[sys.argv.index("--id") + 1]
+dst = os.path.join(ROOT, "seeded", sid)
 os.makedirs(dst, exist_ok=True)
 for f in os.listdir(src):
     if os.path.isfile(os.path.join(src, f)):
@@ -19,7 +24,7 @@ title = readme.strip().split("\n")[0].lstrip("# ").strip()
 m = re.search(r"^#+[^\n]*(needed|manifest|trigger)[^\n]*\n+(.*?)(?:\n\s*\n|\n#)", readme, re.S | re.I | re.M)
 needs = " ".join(m.group(2).split()) if m else ""
 meta = {
-    "id": "%s-%s" % (pid, k),
+    "id": sid,
     "breaks_property": pid,
     "title": title,
     "needs_to_manifest": needs,
